@@ -16,7 +16,7 @@ func init() {
 		{Pkg: v, Func: "isRequiredVerificationPluginVer"},
 		{Pkg: ".../internal/semver", Func: "IsValid"},
 		// revocation answer shape
-		{Pkg: "crypto/x509", Type: "Certificate", Opaque: true, Views: map[string]string{"Subject.String()": "string"}},
+		{Pkg: "crypto/x509", Type: "Certificate", Opaque: true, Views: map[string]string{"Subject.String()": "string", "Raw": "list Z"}},
 		{Pkg: v, Func: "checkRevocationResults"},
 		{Pkg: v, Func: "revocationFinalResult"},
 		// extended attributes
@@ -38,7 +38,8 @@ func init() {
 		{Pkg: v, Func: "processPluginResponse", NonNil: true},
 		// real target refused: `&envelopeContent.SignerInfo` / `&signerInfo.SignedAttributes.Expiry`: address-of a field
 		// reached through a pointer parameter (verifier/verifier.go:933, :949, :958)
-		{Pkg: v, Func: "executePlugin", Oracle: true},
+		{Pkg: fw, Func: "VerifyPlugin.VerifySignature", Oracle: true},
+		{Pkg: v, Func: "executePlugin"},
 		{Pkg: v, Func: "verifyIntegrity", Oracle: true},
 		{Pkg: v, Func: "loadX509TrustStores", Oracle: true},
 		{Pkg: v, Func: "verifyAuthenticity", Oracle: true},
